@@ -73,8 +73,14 @@ Definition vec_dalpha (es : list ent) : Q :=
 (* if d_alpha > 0: u.add_scal_vec(-d_alpha, du); du *= 1 - d_alpha / alpha *)
 Definition vector_ent (alpha d : Q) (e : ent) : ent :=
   mkent (e_u e + (- d) * e_du e) (e_du e * (1 - d / alpha)) (e_lo e) (e_hi e).
-Definition enforce_vector (alpha : Q) (es : list ent) : list ent :=
+(* the kernel before props/C10/fix_2.diff: d_alpha is used as computed *)
+Definition enforce_vector_cur (alpha : Q) (es : list ent) : list ent :=
   let d := vec_dalpha es in
+  if Qlt_bool 0 d then map (vector_ent alpha d) es else es.
+(* repaired (fix_2.diff):  if d_alpha > alpha: d_alpha = alpha *)
+Definition clampd (alpha d : Q) : Q := if Qlt_bool alpha d then alpha else d.
+Definition enforce_vector (alpha : Q) (es : list ent) : list ent :=
+  let d := clampd alpha (vec_dalpha es) in
   if Qlt_bool 0 d then map (vector_ent alpha d) es else es.
 
 Inductive method := Vector | Scalar | Wall.
@@ -148,6 +154,7 @@ Definition between_b (a b x : Q) : bool :=
 Definition v_ents (es : list ent) : val :=
   VL [VL (map (fun e => VQ (e_u e)) es); VL (map (fun e => VQ (e_du e)) es)].
 Definition run_kernel (m : method) (alpha : Q) (es : list ent) : val := v_ents (enforce m alpha es).
+Definition run_vector_cur (alpha : Q) (es : list ent) : val := v_ents (enforce_vector_cur alpha es).
 Definition v_oq (o : option Q) : val := match o with Some q => VQ q | None => VN end.
 Definition run_setup (fixd : bool) (ref ref0 : Q) (lo hi : option Q) : val :=
   if fixd then VL [v_oq (scaled_lower ref ref0 lo hi); v_oq (scaled_upper ref ref0 lo hi)]
